@@ -403,12 +403,18 @@ def call(eng, ctx, cp, self_ty, trait, generics, args, env):
         if r is not NO_MODEL:
             return r
     if tn in ("Index", "IndexMut") and m in ("index", "index_mut") and isinstance(deref(args[1]), Adt) \
-            and deref(args[1]).ty in RANGE_TYPES and isinstance(deref(args[0]), (VecV, Arr)):
+            and deref(args[1]).ty in RANGE_TYPES and isinstance(deref(args[0]), (VecV, Arr)) \
+            and not (isinstance(deref(args[0]), VecV) and deref(args[0]).kind in ("str", "string")):
         return Ref(Cell(slice_range(ctx, deref(args[0]), deref(args[1]), raw)))
     if tn in ("Index", "IndexMut") and m in ("index", "index_mut"):
         v, i = deref(args[0]), args[1]
         if isinstance(v, Arr):
             v = VecV(v.fields, None, "vec")
+        if isinstance(v, VecV) and v.elems is not None and any(isinstance(e, Opaque) for e in v.elems) and isinstance(i, Sc):
+            r = concat_model(eng, ctx, cp, "get", v, [args[0], i])
+            if r.variant == "None":
+                _panic("index", "index out of bounds", raw)
+            return r.fields[0]
         if isinstance(i, Sc) and not is_sym(i.v):
             if v.elems is None:
                 _unsupported("index into opaque sequence")
@@ -780,6 +786,124 @@ def seq_to_str(v):
 
 # ------------------------------------------------------------------------------- Vec
 
+def _opaque_read(what):
+    from interp import OpaqueRead
+    raise OpaqueRead("%s reaches into a byte string modelled without content" % what)
+
+
+def concat_model(eng, ctx, cp, m, v, args):
+    """Reads on a byte string that is a concatenation of symbolic single bytes followed by opaque
+    segments (raw input whose first bytes are modelled): everything that stays inside the byte prefix
+    is exact, anything that needs the content of an opaque segment raises OpaqueRead."""
+    k = 0
+    while k < len(v.elems) and not isinstance(v.elems[k], Opaque):
+        k += 1
+    head, kind = v.elems[:k], v.kind
+
+    def conc_index(i, what):
+        """concrete value of an index / length operand, forking over the values inside the prefix"""
+        if not is_sym(i.v):
+            return int(i.v)
+        conds = [i.v == z3.BitVecVal(j, i.bits) for j in range(k + 1)] + [z3.UGT(i.v, z3.BitVecVal(k, i.bits))]
+        j = ctx.choose_cond(conds, what)
+        if j > k:
+            # beyond the modelled prefix: in range of the whole string or not?
+            n = seq_len(ctx, v)
+            if ctx.branch(z3.ULE(i.v, n.v), what + "-in-range"):
+                _opaque_read(what)
+            return None
+        return j
+
+    def total_ge(n):
+        """is the whole string at least n bytes long? (n concrete)"""
+        ln = seq_len(ctx, v)
+        if not is_sym(ln.v):
+            return int(ln.v) >= n
+        return ctx.branch(z3.UGE(ln.v, z3.BitVecVal(n, 64)), "len>=%d" % n)
+
+    if m == "first":
+        return OPT_SOME(Ref(v.elems, 0)) if k >= 1 else (_opaque_read("first") if total_ge(1) else OPT_NONE())
+    if m == "split_first":
+        if k >= 1:
+            return OPT_SOME(Tup([Ref(v.elems, 0), Ref(Cell(VecV(v.elems[1:], None, kind)))]))
+        return _opaque_read("split_first") if total_ge(1) else OPT_NONE()
+    if m in ("last", "split_last", "ends_with", "strip_suffix", "iter", "to_vec", "contains", "reverse"):
+        _opaque_read(m)
+    if m == "get" and isinstance(args[1], Sc):
+        j = conc_index(args[1], "get")
+        if j is None:
+            return OPT_NONE()
+        if j < k:
+            return OPT_SOME(Ref(v.elems, j))
+        return _opaque_read("get") if total_ge(j + 1) else OPT_NONE()
+    if m in ("starts_with", "strip_prefix"):
+        o = deref(args[1])
+        if isinstance(o, Arr):
+            o = VecV(o.fields, None, "vec")
+        if o.elems is None or any(isinstance(e, Opaque) for e in o.elems):
+            _opaque_read(m)
+        n = len(o.elems)
+        if n > k:
+            if not total_ge(n):
+                return mk_bool(False) if m == "starts_with" else OPT_NONE()
+            _opaque_read(m)
+        c = bytes_eq(ctx, VecV(v.elems[:n], None, "vec"), o)
+        if m == "starts_with":
+            return mk_bool(c)
+        hit = c if isinstance(c, bool) else ctx.branch(c, "strip_prefix")
+        return OPT_SOME(Ref(Cell(VecV(v.elems[n:], None, kind)))) if hit else OPT_NONE()
+    if m in ("split_at", "split_at_checked") and isinstance(args[1], Sc):
+        j = conc_index(args[1], "split_at")
+        if j is None:
+            if m == "split_at":
+                _panic("index", "mid > len", cp.raw)
+            return OPT_NONE()
+        pair = Tup([Ref(Cell(VecV(v.elems[:j], None, kind))), Ref(Cell(VecV(v.elems[j:], None, kind)))])
+        return pair if m == "split_at" else OPT_SOME(pair)
+    return NO_MODEL
+
+
+def concat_range(ctx, v, rv, raw, checked=False):
+    """`&v[a..b]` / `v.get(a..b)` on a byte prefix followed by opaque segments."""
+    k = 0
+    while k < len(v.elems) and not isinstance(v.elems[k], Opaque):
+        k += 1
+    ty = rv.ty
+
+    def conc(x, what):
+        if not is_sym(x.v):
+            return int(x.v)
+        conds = [x.v == z3.BitVecVal(j, x.bits) for j in range(k + 1)] + [z3.UGT(x.v, z3.BitVecVal(k, x.bits))]
+        j = ctx.choose_cond(conds, what)
+        if j > k:
+            n = seq_len(ctx, v)
+            if ctx.branch(z3.ULE(x.v, n.v), what + "-in-range"):
+                _opaque_read("range index")
+            return None
+        return j
+    if ty == "RangeFrom":
+        a = conc(rv.fields[0], "range-start")
+        ok, lo, hi = a is not None, a, None
+    elif ty == "RangeTo":
+        b = conc(rv.fields[0], "range-end")
+        ok, lo, hi = b is not None, 0, b
+    elif ty == "Range":
+        a, b = conc(rv.fields[0], "range-start"), conc(rv.fields[1], "range-end")
+        ok, lo, hi = a is not None and b is not None and a <= b, a, b
+    elif ty == "RangeFull":
+        ok, lo, hi = True, 0, None
+    else:
+        _unsupported("inclusive range on a byte string with opaque segments")
+    if not ok:
+        if checked:
+            return OPT_NONE()
+        _panic("index", "range out of bounds for slice", raw)
+    if hi is not None and hi > k:
+        _opaque_read("range index")
+    out = VecV(v.elems[lo:hi] if hi is not None else v.elems[lo:], None, v.kind)
+    return OPT_SOME(Ref(Cell(out))) if checked else Ref(Cell(out))
+
+
 def vec_model(eng, ctx, cp, self_ty, trait, m, args):
     tn = trait.name if trait is not None else None
     if m == "new" and not args:
@@ -797,6 +921,16 @@ def vec_model(eng, ctx, cp, self_ty, trait, m, args):
         return seq_len(ctx, v)
     if m == "is_empty":
         return seq_is_empty(ctx, v)
+    if v.elems is None and v.kind != "string" and m in (
+            "first", "split_first", "get", "starts_with", "strip_prefix", "split_at", "split_at_checked", "last",
+            "split_last", "ends_with", "strip_suffix", "contains"):
+        v = VecV([v.opaque], None, v.kind)          # no modelled bytes: every content read is an OpaqueRead
+    if v.elems is not None and any(isinstance(e, Opaque) for e in v.elems) and v.kind != "string":
+        if m == "get" and len(args) > 1 and isinstance(deref(args[1]), Adt) and deref(args[1]).ty in RANGE_TYPES:
+            return concat_range(ctx, v, deref(args[1]), cp.raw, checked=True)
+        r = concat_model(eng, ctx, cp, m, v, args)
+        if r is not NO_MODEL:
+            return r
     if m == "push":
         if v.elems is None:
             v.elems, v.opaque = [v.opaque], None       # becomes a concatenation
@@ -1038,9 +1172,9 @@ def slice_range(ctx, v, rv, raw):
     base = v.fields if isinstance(v, Arr) else v.elems
     kind = "vec" if isinstance(v, Arr) else v.kind
     if base is None:
-        _unsupported("range index into an opaque byte string")
+        _opaque_read("range index")
     if any(isinstance(e, Opaque) for e in base):
-        _unsupported("range index into a byte string with opaque segments")
+        return concat_range(ctx, v, rv, raw).get()
     n = len(base)
     get = lambda x: int(x.v) if not is_sym(x.v) else _unsupported("symbolic range bound in slice index")
     ty = rv.ty
@@ -1620,7 +1754,7 @@ def stub_from_reader(eng, ctx, args):
         inner = rd.get()
     seq = deref(inner)
     side = ctx.side
-    if seq.elems is not None and all(not is_sym(x.v) for x in seq.elems):
+    if seq.elems is not None and all(isinstance(x, Sc) and not is_sym(x.v) for x in seq.elems):
         # concrete bytes (translator validation / replay of concrete inputs): real parse
         import concrete
         data = bytes(int(x.v) for x in seq.elems)
@@ -1634,6 +1768,9 @@ def stub_from_reader(eng, ctx, args):
             return ERR(Adt("de::Error", "Syntax", [Sc("usize", 0)]))
         rd.set(Ref(Cell(VecV([Sc("u8", b) for b in data[pos:]], None, "vec"))))
         return OK(concrete.tree_to_value(tree))
+    if seq.elems is not None and any(isinstance(e, Opaque) for e in seq.elems) and "head_parse" in side:
+        # raw input with modelled head bytes (head job): the reference reading of `tag head ++ body`
+        return side["head_parse"](eng, ctx, seq, rd)
     ident = seq.opaque.ident if seq.elems is None else ("conc", id(seq))
     ctx.side.setdefault("parse_calls", []).append(ident)
     # written on this path?
